@@ -196,7 +196,7 @@ func vf06RoundTrip(st *vfStats, t vfFataler, src vf06Src, raw1 []byte, f *Finger
 		st.Violation(t, "%s: regenerated hello is not valid: %v (H1 %d bytes %s; H2 %d bytes %s)", what, h2.Violations, len(raw1), vf06ExtSizes(raw1), len(raw2), vf06ExtSizes(raw2))
 	}
 	dropPad := f.AlwaysAddPadding && h1.Ext(21) == nil // the flag may add a padding extension H1 did not have
-	dropPSK := f.RealPSKResumption                      // a real PSK extension without a session is omitted
+	dropPSK := f.RealPSKResumption                     // a real PSK extension without a session is omitted
 	n1 := vf06Normalise(h1, dropPad, dropPSK)
 	n2 := vf06Normalise(h2, dropPad, dropPSK)
 	if a, b := strings.Join(n1.Lines, "\n"), strings.Join(n2.Lines, "\n"); a != b {
